@@ -103,12 +103,13 @@ pub fn sc_encode_packed<B: BufMut>(c: Codec, tag: u32, vs: &[SV], buf: &mut B) -
 pub fn sc_encoded_len_packed(c: Codec, tag: u32, vs: &[SV]) -> Option<usize> {
     with_numeric!(c, m, T, { let xs: Vec<T> = vs.iter().map(<T as Conv>::of_sv).collect::<Option<_>>()?; Some(m::encoded_len_packed(tag, &xs)) }, None)
 }
-/// `<module>::merge_repeated` appending to `acc`
+/// `<module>::merge_repeated` appending to `acc` (the real function only pushes; it is run on a fresh vector and the
+/// new elements are appended, so that elements already held are not converted back and forth)
 pub fn sc_merge_repeated<B: Buf>(c: Codec, wt: WireType, acc: &mut Vec<SV>, buf: &mut B, ctx: DecodeContext) -> Result<(), DecodeError> {
     with_codec!(c, m, T, {
-        let mut xs: Vec<T> = acc.iter().map(|v| <T as Conv>::of_sv(v).unwrap_or_default()).collect();
+        let mut xs: Vec<T> = vec![];
         let r = m::merge_repeated(wt, &mut xs, buf, ctx);
-        *acc = xs.iter().map(|x| x.to_sv()).collect();
+        acc.extend(xs.iter().map(|x| x.to_sv()));
         r
     })
 }
